@@ -587,6 +587,45 @@ def handle_errors_violation(levels, fail_on_warning):
     return None if got == want else f"levels={levels} fail_on_warning={fail_on_warning}: exit={got}, expected {want}"
 
 
+# ---- Endpoint.response_type: the annotation names every documented response type (bounded C11 / C04) --------------------------
+
+def response_type_cases(tier):
+    names = ["Any", "ModelA", "ModelB", "list['ModelA']", "str"]
+    out = []
+    for k in (0, 1, 2, 3):
+        out += [{"types": list(c)} for c in itertools.product(names, repeat=k)]
+    return out
+
+
+def response_type(case):
+    """the return annotation built for an operation admits the type of each of its documented responses"""
+    import types
+    from openapi_python_client.parser.openapi import Endpoint
+    responses = [types.SimpleNamespace(prop=types.SimpleNamespace(get_type_string=(lambda t: (lambda **kw: t))(t))) for t in case["types"]]
+    try:
+        r = Endpoint.response_type(types.SimpleNamespace(responses=responses))
+    except BaseException as e:  # noqa
+        return f"raised {type(e).__name__}: {e}"
+    if not case["types"]:
+        return None if r == "Any" else f"no responses: {r!r}"
+    members = [r]
+    if r.startswith("Union[") and r.endswith("]"):
+        members, depth, cur = [], 0, ""
+        for ch in r[6:-1]:
+            if ch == "," and depth == 0:
+                members.append(cur.strip())
+                cur = ""
+                continue
+            depth += ch == "["
+            depth -= ch == "]"
+            cur += ch
+        members.append(cur.strip())
+    if "Any" in members:
+        return None                      # Any admits everything
+    missing = [t for t in case["types"] if t not in members]
+    return f"responses of types {case['types']} but the annotation is {r!r}: {missing} not admitted" if missing else None
+
+
 # ---- component accounting of the schema fixpoints (bounded C07 / C06) ---------------------------------------------------------
 
 _ACC = {
@@ -852,6 +891,11 @@ def equivalent_docs(case):
 
 # ---- mypy on schematic packages (C11, bounded: not a post-condition of any /repo function) ----------------------------------
 
+def mypy_same_name_errors():
+    """finding C11-K2: a model with a property whose python name is the model's module name (Status.status)"""
+    return mypy_violation("same-name", raw=True) or []
+
+
 def mypy_errors(which="models"):
     """the error lines mypy reports on the schematic package (file name relative to the package : line : message)"""
     r = mypy_violation(which, raw=True)
@@ -882,8 +926,10 @@ def mypy_violation(which="models", raw=False):
     from .replay import generate_tree
     import contracts.endpoints_f as ef
     import contracts.models_f as mf
+    same = {"openapi": "3.0.3", "info": {"title": "s", "version": "1"}, "paths": {}, "components": {"schemas": {
+        "Status": {"type": "object", "properties": {"status": {"type": "string", "format": "date"}, "other": {"type": "integer"}}}}}}
     doc, cfg = {"models": (mf.document("3.1.0")[0], {}), "models-literal": (mf.document("3.0.3")[0], {"literal_enums": True}),
-                "endpoints": (ef.document("3.0.3")[0], {})}[which]
+                "endpoints": (ef.document("3.0.3")[0], {}), "same-name": (same, {})}[which]
     with contextlib.redirect_stdout(io.StringIO()):
         errors, out, files, tmp = generate_tree(document=doc, config=cfg)
     try:
